@@ -48,11 +48,11 @@ type dotEdge struct {
 }
 type listObs struct {
 	Obs
-	LStates []listState `json:"lstates"`
-	LLA     []listLA    `json:"lla"`
-	DNodes  []dotNode   `json:"dnodes"`
-	DEdges  []dotEdge   `json:"dedges"`
-	ParseNotes []string `json:"parsenotes"`
+	LStates    []listState `json:"lstates"`
+	LLA        []listLA    `json:"lla"`
+	DNodes     []dotNode   `json:"dnodes"`
+	DEdges     []dotEdge   `json:"dedges"`
+	ParseNotes []string    `json:"parsenotes"`
 }
 
 func internalName(s string) string { // names as the listing prints them -> abstract
